@@ -1277,6 +1277,10 @@ class Evaluator:
                     if m is not None:
                         r = self.truth(self.call_function(FuncV(m, None, x, m.cls), [y], {}, node))
                         return r if sym == "==" else negate(r)
+        if sym in ("==", "!="):
+            for x, y in ((a, b), (b, a)):
+                if isinstance(x, Sym) and ("callable" in x.tags or "object" in x.tags) and isinstance(y, (Const, EnumM)):
+                    return Const(sym == "!=")
         if _num_tuple(a) and isinstance(b, V) and to_poly(b) is not None:
             return Vec([compare(sym, x, b) for x in a.items])
         if _num_tuple(b) and isinstance(a, V) and to_poly(a) is not None:
